@@ -306,19 +306,28 @@ func shrinkMedium(t *Trace, try func(*Trace) bool) *Trace {
 	}
 	var best *Trace
 	cur := t
-	for i := 0; i < len(cur.Medium.Image.Blocks); {
-		c := cur.Clone()
-		c.Medium.Image.Blocks = append(append([]BlkSpec{}, cur.Medium.Image.Blocks[:i]...), cur.Medium.Image.Blocks[i+1:]...)
-		if i < len(c.Medium.Choices) {
-			c.Medium.Choices = c.Medium.Choices[:i] + c.Medium.Choices[i+1:]
-		}
-		if try(c) {
-			cur, best = c, c
-		} else {
-			i++
+	// drop runs of blocks (halving the run length), then single blocks
+	for chunk := len(cur.Medium.Image.Blocks) / 2; chunk >= 1; chunk /= 2 {
+		for i := 0; i+chunk <= len(cur.Medium.Image.Blocks); {
+			if minimiseExpired() {
+				return best
+			}
+			c := cur.Clone()
+			c.Medium.Image.Blocks = append(append([]BlkSpec{}, cur.Medium.Image.Blocks[:i]...), cur.Medium.Image.Blocks[i+chunk:]...)
+			if i < len(c.Medium.Choices) {
+				c.Medium.Choices = c.Medium.Choices[:i] + c.Medium.Choices[min(i+chunk, len(c.Medium.Choices)):]
+			}
+			if try(c) {
+				cur, best = c, c
+			} else {
+				i++
+			}
 		}
 	}
 	for i := 0; i < len(cur.Medium.Image.Roots); {
+		if minimiseExpired() {
+			return best
+		}
 		c := cur.Clone()
 		c.Medium.Image.Roots = append(append([]BlkSpec{}, cur.Medium.Image.Roots[:i]...), cur.Medium.Image.Roots[i+1:]...)
 		if try(c) {
@@ -330,6 +339,9 @@ func shrinkMedium(t *Trace, try func(*Trace) bool) *Trace {
 	for i := range cur.Medium.Image.Blocks {
 		for _, n := range []int{0, 1, 8} {
 			if cur.Medium.Image.Blocks[i].Size > n {
+				if minimiseExpired() {
+					return best
+				}
 				c := cur.Clone()
 				c.Medium.Image.Blocks[i].Size = n
 				if try(c) {
@@ -346,6 +358,9 @@ func shrinkMedium(t *Trace, try func(*Trace) bool) *Trace {
 		func(m *MediumSpec) { m.Opts = ReadOpts{} },
 	}
 	for _, f := range mods {
+		if minimiseExpired() {
+			return best
+		}
 		c := cur.Clone()
 		a, _ := jsonOf(c.Medium)
 		f(c.Medium)
@@ -355,6 +370,9 @@ func shrinkMedium(t *Trace, try func(*Trace) bool) *Trace {
 		}
 	}
 	for i := 0; i < len(cur.Medium.Muts) && len(cur.Medium.Muts) > 1; {
+		if minimiseExpired() {
+			return best
+		}
 		c := cur.Clone()
 		c.Medium.Muts = append(append([]Mut{}, cur.Medium.Muts[:i]...), cur.Medium.Muts[i+1:]...)
 		if try(c) {
